@@ -31,8 +31,7 @@ impl Order {
     const ID: Order = Order { rot: 0, rev: false };
     fn draw(n: usize) -> Order {
         if unsafe { SYMBOLIC_ORDER } && n > 1 {
-            let rot = crate::verif_rt::any_usize();
-            crate::verif_rt::assume(rot < n);
+            let rot = crate::verif_rt::any_usize_in(0, n);
             Order { rot, rev: crate::verif_rt::any_bool() }
         } else {
             Order::ID
